@@ -640,6 +640,15 @@ func histCampaign(prop, tier string, seed uint64, scratch string) *Result {
 			_ = os.MkdirAll(dir, 0o755)
 			defer os.RemoveAll(dir)
 			v, c2 := otherBackendC14(dir, fr.c)
+			var brk *CorrBreak
+			if c2 != nil {
+				// (the model run happens outside the lock: one driver process per worker)
+				if model, err := runDriver(c2.Proto); err == nil {
+					if m, _ := relevantMismatch(c2, model, spec.Kinds); m != nil {
+						brk = &CorrBreak{Seed: fr.seed, M: *m, Ops: c2.Ops, Fields: diffFields(m.Impl, m.Model)}
+					}
+				}
+			}
 			mu.Lock()
 			defer mu.Unlock()
 			if v != nil {
@@ -649,13 +658,10 @@ func histCampaign(prop, tier string, seed uint64, scratch string) *Result {
 				}
 				res.Findings = append(res.Findings, f)
 			}
+			if brk != nil {
+				res.Breaks = append(res.Breaks, brk)
+			}
 			if c2 != nil {
-				model, err := runDriver(c2.Proto)
-				if err == nil {
-					if m, _ := relevantMismatch(c2, model, spec.Kinds); m != nil {
-						res.Breaks = append(res.Breaks, &CorrBreak{Seed: fr.seed, M: *m, Ops: c2.Ops, Fields: diffFields(m.Impl, m.Model)})
-					}
-				}
 				res.Lines += len(c2.Impl)
 			}
 		})
